@@ -9,12 +9,14 @@ import (
 	"encoding/hex"
 	"fmt"
 	"io"
+	"reflect"
 	"sort"
 	"strings"
 	"sync"
 
 	"github.com/go-logr/logr"
 	"github.com/pckhoi/meow"
+	wdiff "github.com/wrgl/wrgl/pkg/diff"
 	"github.com/wrgl/wrgl/pkg/doctor"
 	"github.com/wrgl/wrgl/pkg/ingest"
 	"github.com/wrgl/wrgl/pkg/objects"
@@ -198,6 +200,9 @@ type Obs struct {
 	TblIdx   []int      `json:"tblidx"`   // per block: rank of the table-index key (-1 = not a key of the table)
 	TblIdxOK bool       `json:"tblidxok"` // table index present and readable
 	Diagnose []string   `json:"diagnose"` // issues reported by doctor
+	Readers  []int      `json:"readers"`  // diff.NewTableReader read to the end: key rank of every row (-1: cells differ from the stored row)
+	Seeks    [][2]int   `json:"seeks"`    // TableReader.Seek(offset) + Read at block-boundary offsets: [offset, rank or -1]
+	RowList  [][2]int   `json:"rowlist"`  // diff.RowListReader over the same offsets (reverse order): [offset, rank or -1]
 	Err      string     `json:"err"`
 	Src      string     `json:"src"` // how the table was produced (replayable scenario), opaque to the spec
 }
@@ -324,7 +329,78 @@ func Observe(db objects.Store, sum []byte, producer string) *Obs {
 		issues := DiagnoseTable(db, sum)
 		o.Diagnose = append(o.Diagnose, issues...)
 	}()
+	observeReaders(db, t, blocks, rank, o)
 	return o
+}
+
+// observeReaders reads the table through the repository's own row readers (pkg/diff: the table
+// reader behind `wrgl preview`, the row-list reader behind `wrgl diff`) and projects what they return.
+func observeReaders(db objects.Store, t *objects.Table, blocks [][][]string, rank func([]string) int, o *Obs) {
+	o.Readers, o.Seeks, o.RowList = []int{}, [][2]int{}, [][2]int{}
+	flat := Flatten(blocks)
+	proj := func(i int, row []string) int {
+		if i < 0 || i >= len(flat) || !reflect.DeepEqual(row, flat[i]) {
+			return -1
+		}
+		return rank(keyOf(row, t.PK))
+	}
+	defer func() {
+		if r := recover(); r != nil {
+			o.Readers = append(o.Readers, -3) // a reader panicked
+		}
+	}()
+	tr, err := wdiff.NewTableReader(db, t)
+	if err != nil {
+		o.Readers = append(o.Readers, -2)
+		return
+	}
+	for i := 0; i <= len(flat)+2; i++ {
+		row, err := tr.Read()
+		if err == io.EOF {
+			break
+		}
+		if err != nil {
+			o.Readers = append(o.Readers, -2)
+			break
+		}
+		o.Readers = append(o.Readers, proj(i, row))
+	}
+	var offs []int
+	seen := map[int]bool{}
+	for _, x := range []int{0, 1, 254, 255, 256, 509, 510, 511, len(flat) - 2, len(flat) - 1} {
+		if x >= 0 && x < len(flat) && !seen[x] {
+			seen[x] = true
+			offs = append(offs, x)
+		}
+	}
+	for _, x := range offs {
+		if _, err := tr.Seek(x, io.SeekStart); err != nil {
+			o.Seeks = append(o.Seeks, [2]int{x, -2})
+			continue
+		}
+		row, err := tr.Read()
+		if err != nil {
+			o.Seeks = append(o.Seeks, [2]int{x, -2})
+			continue
+		}
+		o.Seeks = append(o.Seeks, [2]int{x, proj(x, row)})
+	}
+	rl, err := wdiff.NewRowListReader(db, t)
+	if err != nil {
+		o.RowList = append(o.RowList, [2]int{-1, -2})
+		return
+	}
+	for i := len(offs) - 1; i >= 0; i-- {
+		rl.Add(uint32(offs[i]))
+	}
+	for i := len(offs) - 1; i >= 0; i-- {
+		row, err := rl.Read()
+		if err != nil {
+			o.RowList = append(o.RowList, [2]int{offs[i], -2})
+			continue
+		}
+		o.RowList = append(o.RowList, [2]int{offs[i], proj(offs[i], row)})
+	}
 }
 
 var _ = doctor.Issue{}
